@@ -8,7 +8,10 @@ VERIF = '/verif'
 TRI = f'{VERIF}/triage'
 os.makedirs(TRI, exist_ok=True)
 
-if len(sys.argv) > 2 and sys.argv[1] == '--import':
+if len(sys.argv) > 2 and sys.argv[1] in ('--import', '--merge'):
+    # --import replaces the record of each property found in the directory; --merge (incremental triage of entries appended to
+    # the corpus since the last full sweep, `tools_triage.sh` with FROM=...) adds its keys / leftovers to the existing record
+    merge = sys.argv[1] == '--merge'
     for f in glob.glob(os.path.join(sys.argv[2], 'triage_C*.json')):
         try:
             d = json.load(open(f))
@@ -22,8 +25,16 @@ if len(sys.argv) > 2 and sys.argv[1] == '--import':
             'leftovers': [{'sha': l['sha'], 'origin': l['origin'], 'oracle': l.get('oracle', ''), 'detail': l['detail'][:160],
                            'input': l['input'] if len(l['input']) <= 400 else None, 'cfg': l.get('cfg'), 'extra': l.get('extra')} for l in d['leftovers']],
         }
-        json.dump(red, open(f"{TRI}/{d['property']}.json", 'w'), indent=0, ensure_ascii=False)
-        print('imported', d['property'], len(red['comment_keys']), 'keys', len(red['leftovers']), 'leftovers')
+        out = f"{TRI}/{d['property']}.json"
+        if merge and os.path.exists(out):
+            old = json.load(open(out))
+            have = {k['key'] for k in old['comment_keys']}
+            old['comment_keys'] += [k for k in red['comment_keys'] if k['key'] not in have]
+            have = {(l['sha'], l.get('oracle', ''), l['detail'][:20]) for l in old['leftovers']}
+            old['leftovers'] += [l for l in red['leftovers'] if (l['sha'], l.get('oracle', ''), l['detail'][:20]) not in have]
+            red = old
+        json.dump(red, open(out, 'w'), indent=0, ensure_ascii=False)
+        print('merged' if merge else 'imported', d['property'], len(red['comment_keys']), 'keys', len(red['leftovers']), 'leftovers')
 
 def commit_of(prefix):
     out = subprocess.run(['git', '-C', '/repo', 'log', '--format=%h %s'], capture_output=True, text=True).stdout
